@@ -320,4 +320,187 @@ theorem exists_split (M : Buf) (a b : Nat) (h : M.length = a + b) :
     ∃ M1 M2 : Buf, M = M1 ++ M2 ∧ M1.length = a ∧ M2.length = b :=
   ⟨M.take a, M.drop a, (List.take_append_drop a M).symm, by simp; omega, by simp; omega⟩
 
+/-! ### memmove inside one allocation -/
+
+theorem rd_ok' {b : Buf} {i : Nat} (h : i < b.length) : rd b i = .ok b[i] := by simp [rd, h]
+theorem wr_ok' {b : Buf} {i : Nat} (v : Nat) (h : i < b.length) : wr b i v = .ok (b.set i v) := by simp [wr, h]
+
+theorem take_succ_set_self (b : Buf) (d x : Nat) (h : d < b.length) : (b.set d x).take (d + 1) = b.take d ++ [x] := by
+  rw [List.take_succ_eq_append_getElem (by simpa using h), List.take_set_of_le (Nat.le_refl d)]
+  simp
+
+theorem drop_set_self (b : Buf) (j x : Nat) (h : j < b.length) : (b.set j x).drop j = x :: b.drop (j + 1) := by
+  rw [List.drop_eq_getElem_cons (by simpa using h), List.drop_set_of_lt (Nat.lt_succ_self j)]
+  simp
+
+theorem memmoveFwd_spec : ∀ (n : Nat) (b : Buf) (d s : Nat), d ≤ s → s + n ≤ b.length →
+    memmoveFwd n b d s = .ok (Spec.splice b d ((b.drop s).take n)) := by
+  intro n
+  induction n with
+  | zero => intro b d s _ _; simp [memmoveFwd, Spec.splice]
+  | succ n ih =>
+    intro b d s hds hs
+    have hs' : s < b.length := by omega
+    have hd' : d < b.length := by omega
+    simp only [memmoveFwd, rd_ok' hs', wr_ok' _ hd', ok_bind]
+    rw [ih (b.set d b[s]) (d + 1) (s + 1) (by omega) (by simp; omega)]
+    congr 1
+    have hw : ((b.drop (s + 1)).take n).length = n := by simp; omega
+    have e2 : (b.drop s).take (n + 1) = b[s] :: (b.drop (s + 1)).take n := by
+      rw [List.drop_eq_getElem_cons hs', List.take_succ_cons]
+    rw [List.drop_set_of_lt (by omega : d < s + 1), e2]
+    simp only [Spec.splice, List.length_cons, hw]
+    rw [take_succ_set_self b d _ hd', List.drop_set_of_lt (by omega : d < d + 1 + n)]
+    have e3 : d + 1 + n = d + (n + 1) := by omega
+    rw [e3]
+    simp [List.append_assoc]
+
+theorem memmoveBack_spec (d s : Nat) (hsd : s ≤ d) : ∀ (n : Nat) (b : Buf), d + n ≤ b.length →
+    memmoveBack d s n b = .ok (Spec.splice b d ((b.drop s).take n)) := by
+  intro n
+  induction n with
+  | zero => intro b _; simp [memmoveBack, Spec.splice]
+  | succ r ih =>
+    intro b hd
+    have hs' : s + r < b.length := by omega
+    have hd' : d + r < b.length := by omega
+    simp only [memmoveBack, rd_ok' hs', wr_ok' _ hd', ok_bind]
+    rw [ih (b.set (d + r) b[s + r]) (by simp; omega)]
+    congr 1
+    have e1 : ((b.set (d + r) b[s + r]).drop s).take r = (b.drop s).take r := by
+      rw [List.drop_set, if_neg (by omega), List.take_set_of_le (by omega)]
+    have hw : ((b.drop s).take r).length = r := by simp; omega
+    have e2 : (b.drop s).take (r + 1) = (b.drop s).take r ++ [b[s + r]] := by
+      rw [List.take_succ_eq_append_getElem (by simp; omega)]
+      simp
+    rw [e1, e2]
+    simp only [Spec.splice, hw, List.length_append, List.length_singleton]
+    rw [List.take_set_of_le (by omega : d ≤ d + r), drop_set_self b (d + r) _ hd']
+    have e3 : d + (r + 1) = d + r + 1 := by omega
+    rw [e3]
+    simp [List.append_assoc]
+
+/-! ### comparisons -/
+
+theorem key_eq (ct : CT) : Spec.key ct.bits ct.signedCmp = ct.key := rfl
+
+
+theorem key_inj (ct : CT) (hb : 0 < ct.bits) {x y : Nat} (hx : x < 2 ^ ct.bits) (hy : y < 2 ^ ct.bits)
+    (h : ct.key x = ct.key y) : x = y := by
+  have hp : 2 ^ ct.bits = 2 * 2 ^ (ct.bits - 1) := by
+    have : ct.bits = (ct.bits - 1) + 1 := by omega
+    rw [this, Nat.pow_succ]; simp; omega
+  unfold CT.key at h
+  generalize 2 ^ (ct.bits - 1) = H at *
+  rw [hp] at h hx hy
+  cases ct.signedCmp <;> simp at h
+  · omega
+  · split at h <;> split at h <;> omega
+
+theorem units_inj (ct : CT) (hb : 0 < ct.bits) {a b : Buf} (ha : Spec.Units ct.bits a) (hbb : Spec.Units ct.bits b) (i j : Nat) :
+    ∀ x ∈ a.drop i, ∀ y ∈ b.drop j, ct.key x = ct.key y → x = y :=
+  fun x hx y hy h => key_inj ct hb (ha x (List.mem_of_mem_drop hx)) (hbb y (List.mem_of_mem_drop hy)) h
+
+theorem compareUnits_self (ct : CT) (x : Nat) : compareUnits ct x x = 0 := by simp [compareUnits]
+
+theorem cmp_cons_ne (ct : CT) (x y : Nat) (xs ys : List Nat) (h : ct.key x ≠ ct.key y) :
+    Spec.cmp ct.key (x :: xs) (y :: ys) = compareUnits ct x y := by
+  simp only [Spec.cmp, compareUnits]
+  split
+  · rfl
+  · split
+    · rfl
+    · omega
+
+theorem cmp_cons_self (k : Nat → Int) (x : Nat) (xs ys : List Nat) :
+    Spec.cmp k (x :: xs) (x :: ys) = Spec.cmp k xs ys := by simp [Spec.cmp]
+
+theorem upto0_cons (x : Nat) (l : List Nat) : Spec.upto0 (x :: l) = x :: (if x = 0 then [] else Spec.upto0 l) := by
+  by_cases h : x = 0 <;> simp [Spec.upto0, h]
+
+theorem memcmpLoop_spec (ct : CT) (a b : Buf) : ∀ (r : Nat) (la lb : List Nat) (i j : Nat), a.drop i = la → b.drop j = lb →
+    r ≤ la.length → r ≤ lb.length → (∀ x ∈ la, ∀ y ∈ lb, ct.key x = ct.key y → x = y) →
+    memcmpLoop ct a b r i j = .ok (Spec.cmp ct.key (la.take r) (lb.take r)) := by
+  intro r
+  induction r with
+  | zero => intro la lb i j _ _ _ _ _; simp [memcmpLoop, Spec.cmp]
+  | succ r ih =>
+    intro la lb i j ha hb hra hrb hinj
+    cases la with
+    | nil => simp at hra
+    | cons x la =>
+      cases lb with
+      | nil => simp at hrb
+      | cons y lb =>
+        simp only [memcmpLoop, rd_of_drop_cons ha, rd_of_drop_cons hb, ok_bind, List.take_succ_cons]
+        by_cases hxy : x = y
+        · subst hxy
+          simp only [ne_eq, not_true_eq_false, if_false, cmp_cons_self]
+          exact ih la lb (i + 1) (j + 1) (drop_succ_of_drop_cons ha) (drop_succ_of_drop_cons hb) (by simpa using hra)
+            (by simpa using hrb) (fun u hu v hv => hinj u (List.mem_cons_of_mem _ hu) v (List.mem_cons_of_mem _ hv))
+        · have hk : ct.key x ≠ ct.key y := fun e => hxy (hinj x (by simp) y (by simp) e)
+          simp only [ne_eq, hxy, not_false_eq_true, if_true, cmp_cons_ne ct x y _ _ hk]
+
+theorem strncmpLoop_spec (ct : CT) (a b : Buf) : ∀ (r : Nat) (la lb : List Nat) (i j : Nat), a.drop i = la → b.drop j = lb →
+    (r ≤ la.length ∨ 0 ∈ la) → (r ≤ lb.length ∨ 0 ∈ lb) → (∀ x ∈ la, ∀ y ∈ lb, ct.key x = ct.key y → x = y) →
+    strncmpLoop ct a b r i j = .ok (Spec.cmp ct.key (Spec.upto0 (la.take r)) (Spec.upto0 (lb.take r))) := by
+  intro r
+  induction r with
+  | zero => intro la lb i j _ _ _ _ _; simp [strncmpLoop, Spec.cmp, Spec.upto0]
+  | succ r ih =>
+    intro la lb i j ha hb hra hrb hinj
+    cases la with
+    | nil => rcases hra with h | h <;> simp at h
+    | cons x la =>
+      cases lb with
+      | nil => rcases hrb with h | h <;> simp at h
+      | cons y lb =>
+        simp only [strncmpLoop, rd_of_drop_cons ha, rd_of_drop_cons hb, ok_bind, List.take_succ_cons, upto0_cons]
+        by_cases hxy : x = y
+        · subst hxy
+          simp only [ne_eq, not_true_eq_false, if_false, cmp_cons_self]
+          by_cases hx : x = 0
+          · simp [hx, Spec.cmp]
+          · simp only [hx, if_false]
+            refine ih la lb (i + 1) (j + 1) (drop_succ_of_drop_cons ha) (drop_succ_of_drop_cons hb) ?_ ?_
+              (fun u hu v hv => hinj u (List.mem_cons_of_mem _ hu) v (List.mem_cons_of_mem _ hv))
+            · rcases hra with h | h
+              · left; simpa using h
+              · right; exact mem_tail_of_ne h hx
+            · rcases hrb with h | h
+              · left; simpa using h
+              · right; exact mem_tail_of_ne h hx
+        · have hk : ct.key x ≠ ct.key y := fun e => hxy (hinj x (by simp) y (by simp) e)
+          simp only [ne_eq, hxy, not_false_eq_true, if_true, cmp_cons_ne ct x y _ _ hk]
+
+theorem strcmpLoop_spec (ct : CT) (a b : Buf) : ∀ (la lb : List Nat) (i j f : Nat), a.drop i = la → b.drop j = lb →
+    0 ∈ la → 0 ∈ lb → la.length < f → (∀ x ∈ la, ∀ y ∈ lb, ct.key x = ct.key y → x = y) →
+    strcmpLoop ct a b f i j = .ok (Spec.cmp ct.key (Spec.upto0 la) (Spec.upto0 lb)) := by
+  intro la
+  induction la with
+  | nil => intro lb i j f _ _ h0; simp at h0
+  | cons x la ih =>
+    intro lb i j f ha hb h0a h0b hf hinj
+    cases f with
+    | zero => simp at hf
+    | succ f =>
+      cases lb with
+      | nil => simp at h0b
+      | cons y lb =>
+        simp only [strcmpLoop, rd_of_drop_cons ha, rd_of_drop_cons hb, ok_bind, upto0_cons]
+        by_cases hxy : x = y
+        · subst hxy
+          by_cases hx : x = 0
+          · simp [hx, Spec.cmp, compareUnits_self]
+          · simp only [hx, if_false, ne_eq, not_true_eq_false, cmp_cons_self]
+            exact ih lb (i + 1) (j + 1) f (drop_succ_of_drop_cons ha) (drop_succ_of_drop_cons hb) (mem_tail_of_ne h0a hx)
+              (mem_tail_of_ne h0b hx) (by simpa using hf)
+              (fun u hu v hv => hinj u (List.mem_cons_of_mem _ hu) v (List.mem_cons_of_mem _ hv))
+        · have hk : ct.key x ≠ ct.key y := fun e => hxy (hinj x (by simp) y (by simp) e)
+          rw [cmp_cons_ne ct x y _ _ hk]
+          by_cases hx : x = 0
+          · simp [hx]
+          · simp [hx, hxy]
+
+
 end Tetl.C18
